@@ -26,6 +26,7 @@ def run(chk, R, tier, seed):
     chk.require("doc rows checked", 95)
     chk.require("prefixes", 20)
     chk.require("pairs", 1000)
+    chk.require("unit quotients within a type", 300)
     chk.require("compound units", 25)
     chk.require("temperature doc equalities", 4)
 
@@ -71,7 +72,7 @@ def run(chk, R, tier, seed):
     chk.exhaustive["all predefined units"] = True
 
     # -- all ordered pairs per type
-    amts = [F(1), F(123456789, 1000), F(-7, 3)]
+    amts = [F(1), F(123456789, 1000), F(-7, 3), F(0)]
     for tname in SI.LINEAR_TYPES:
         us = SI.units_of(tname)
         for s1 in us:
@@ -105,6 +106,40 @@ def run(chk, R, tier, seed):
                                 dict(obs=obs, steps=steps), "pair")
                     cases.append(Case(steps, judge))
     chk.exhaustive["ordered unit pairs per linear type"] = True
+
+    # -- quotient of two units of one type, both ways round and once more
+    # (the plain number scale / scale, whatever was evaluated before)
+    for tname in SI.LINEAR_TYPES:
+        us = SI.units_of(tname)
+        for i, s1 in enumerate(us):
+            for s2 in us[i:]:
+                steps = [{"k": "q12", "e": OP("/", U(s1), U(s2))},
+                         {"k": "q21", "e": OP("/", U(s2), U(s1))},
+                         {"k": "q12b", "e": OP("/", U(s1), U(s2))},
+                         {"k": "qq", "e": OP("/", Q(["i", 3], s2), U(s1))}]
+
+                def judge(obs, rec, case, s1=s1, s2=s2, steps=steps):
+                    if not obs:
+                        chk.inconclusive_because("unit quotient not observed")
+                        return
+                    chk.case(("unit quotient", s1, s2))
+                    chk.count("unit quotients within a type")
+                    k = SI.scale(s1) / SI.scale(s2)
+                    for key, want in (("q12", k), ("q21", 1 / k),
+                                      ("q12b", k), ("qq", 3 / k)):
+                        r = obs.get(key, {})
+                        if r.get("k") == "T" and len(r["items"]) == 2 and \
+                                r["items"][1].get("k") == "None":
+                            # unit-level operations return (number, unit)
+                            r = r["items"][0]
+                        if r.get("k") != "N" or val(r) != want or \
+                                r.get("at") == "float":
+                            chk.violation(
+                                "%s with %s, %s: got %s, the reference "
+                                "scales give %s" % (key, s1, s2, brief(r),
+                                                    want),
+                                dict(obs=obs, steps=steps), "pair")
+                cases.append(Case(steps, judge))
 
     # -- compound units
     compound = dict(SI.COMPOUND)
